@@ -49,6 +49,7 @@ def gen_string(r, maxchars=60, mask=None):
 
 ENCODINGS = [('z(bs=1)', {}), ('z(bs=4)', {}), ('z(bs=16)', {}), ('m(bs=4;mask=0x77,0,0)', {}), ('m(bs=4;mask=0x77,7,16)', {}), ('m(bs=8;mask=0xaa,3,1)', {}),
              ('z(len=16)', {}), ('z(len=48)', {}), ('z(len=32;nulless)', {}), ('m(len=32;mask=0x77,7,16)', {}), ('p(bs=4)', {}), ('p(bs=1)', {}),
+             ('z(len=8;nulless)', {}), ('m(len=8;nulless;mask=0x77,0,0)', {}), ('m(len=16;nulless;mask=0x77,7,16)', {}), ('m(len=8;mask=0x55,1,0)', {}),
              ('Sz(bs=4)', {'pre': [('i', 7)]}), ('fSm(bs=4;mask=0x77,7,16)', {'pre': [('f', 0x3f800000), ('i', -1)]}), ('z(len=16)S', {'post': [('i', 3)]}), ('p(bs=4)f', {'post': [('f', 0x40000000)]})]
 
 def capacity(p, blob_limit=None):
@@ -62,6 +63,15 @@ def user_sig_case(ctx, r):
     sp = next(p for p in params if p.is_string)
     m = sp.attrs.get('mask'); m = [m, 0, 0] if isinstance(m, int) else m
     s = gen_string(r, mask=m)
+    cap = capacity(sp)
+    if cap is not None and r.chance(0.4):
+        # exact fit and its neighbours: the text fills the buffer completely / by one byte less / one byte too many
+        target = max(0, cap + r.pick([-1, 0, 0, 0, 1]))
+        R = rep(); s = ''
+        while len(s.encode('shift_jis')) < target:
+            room = target - len(s.encode('shift_jis'))
+            s += r.pick(R['kana'] + R['kanji']) if room >= 2 and r.chance(0.4) else r.pick(R['ascii'])
+        ctx.count('exact_fit_strings')
     if r.chance(0.06): s += r.pick(['é', '€', '한', '😀'])     # not encodable in Shift-JIS
     args = list(extra.get('pre', [])) + [('s', s)] + list(extra.get('post', []))
     obs = AC.roundtrip_call(ctx, 'anm', 'th12', 900, sigtext, args)
@@ -161,6 +171,17 @@ def metadata_case(ctx, r):
     k = r.pick(['std-old', 'std-new', 'anm-path', 'mission'])
     if k == 'mission': s = gen_string(r, maxchars=30)
     else: s = gen_string(r, maxchars=70)
+    capk = {'std-old': 127, 'std-new': 127, 'mission': 63}.get(k)
+    if capk is not None and r.chance(0.4):
+        # around the field size, in bytes - with multi-byte characters the character count is much smaller than the byte count
+        target = capk + r.pick([-2, -1, 0, 0, 1, 2, 13])
+        R = rep(); s = ''
+        multi = r.chance(0.7)
+        while len(s.encode('shift_jis')) < target:
+            room = target - len(s.encode('shift_jis'))
+            s += r.pick(R['kana'] + R['kanji']) if room >= 2 and multi and r.chance(0.9) else r.pick(R['ascii'])
+        if s[:1] in '|@': s = 'x' + s[1:]
+        ctx.count('exact_fit_metadata')
     if r.chance(0.05): s += 'é'
     q = AC.quote(s)
     if k == 'std-old':
